@@ -20,6 +20,9 @@ import (
 
 var Formats = []string{"pdf", "docx", "odt", "xlsx", "pptx", "epub", "html"}
 
+// slots maps a run index to a format.
+var slots = []string{"pdf", "docx", "odt", "xlsx", "pptx", "epub", "html", "pdf"}
+
 type Spec struct {
 	Format  string           `json:"format"`
 	DocSeed uint64           `json:"doc_seed"`
@@ -30,6 +33,7 @@ type Spec struct {
 	WrongExt string          `json:"wrong_ext,omitempty"`
 	NBlocks  int             `json:"n_blocks,omitempty"` // singles: how many blocks the document's enumeration has
 	Curated  int             `json:"curated,omitempty"` // PDF: 1 or 2 = one of the hand-picked layouts, 0 = drawn from the seed
+	FirstPairBlock bool      `json:"first_pair_block,omitempty"`
 }
 
 type Prop struct {
@@ -77,8 +81,8 @@ func smallPDFSpec(r *sim.Rand) pdfw.DocSpec {
 func curatedPDFSpec(k int, seed uint64) pdfw.DocSpec {
 	if k == 0 {
 		// cross-reference stream, object streams (incl. the length object), PNG predictor,
-		// indirect /Length, Type0 font with ToUnicode, form XObject, one incremental update
-		return pdfw.DocSpec{Seed: seed, Pages: 2, Lines: 2, FontKinds: []int{pdfw.FontType0Identity, pdfw.FontStdWinAnsi}, XRef: []int{1, 1},
+		// indirect /Length, Type0 font with ToUnicode, a form XObject that invokes two more, one incremental update
+		return pdfw.DocSpec{Seed: seed, Pages: 2, Lines: 4, FormNest: 2, FontKinds: []int{pdfw.FontType0Identity, pdfw.FontStdWinAnsi}, XRef: []int{1, 1},
 			ObjStm: 2, ObjStmN: 1, ObjStmZ: true, XRefZ: 2, LenMode: 1, LenInStm: true, Filter: 1, Predictor: 12, TreeDepth: 2, InheritAt: 1,
 			ResIndirect: true, FontPartsIndirect: true, FormXObj: true, TextOps: 2, Revisions: 1, RevOps: []int{0}, ForceCMapForm: 2}
 	}
@@ -125,7 +129,7 @@ func enumerate(d *document) []faults.Fault {
 	case "pdf":
 		out = append(out, faults.EnumPDFFields(*d.pdf)...)
 		out = append(out, faults.EnumPDFTokens(d.data)...)
-		out = append(out, faults.EnumBytes(d.data, 4096)...)
+		out = append(out, faults.EnumBytesLimits(d.data, 8192, 4096)...)
 	case "html":
 		out = append(out, faults.EnumMarkup(d.data, "")...)
 		out = append(out, faults.EnumBytes(d.data, 4096)...)
@@ -200,8 +204,16 @@ func docsPerFormat(tier string) int {
 func (p *Prop) Generate(base uint64, index int, env *sim.Env) *sim.Case {
 	seed := sim.RunSeed(base, "C02", index)
 	r := sim.NewRand(seed)
-	format := Formats[index%len(Formats)]
-	j := index / len(Formats)
+	// PDF has by far the largest fault catalogue: it gets two of every eight runs
+	slot := index % len(slots)
+	format := slots[slot]
+	j := index / len(slots)
+	if format == "pdf" {
+		j *= 2
+		if slot != 0 {
+			j++
+		}
+	}
 	if only := os.Getenv("ZZ_C02_FORMAT"); only != "" {
 		// development aid: restrict a batch to one format (never set by the registered commands)
 		format, j = only, index
@@ -218,7 +230,20 @@ func (p *Prop) Generate(base uint64, index int, env *sim.Env) *sim.Case {
 	d := makeDoc(format, docSeed, sp.Curated)
 	all := enumerate(d)
 	nBlocks := (len(all) + blockSize - 1) / blockSize
+	var pairs [][]faults.Fault
+	if format == "pdf" {
+		pairs = faults.EnumPDFPairs(*d.pdf)
+	}
+	nPairBlocks := (len(pairs) + blockSize - 1) / blockSize
 	switch {
+	case block >= nBlocks && block < nBlocks+nPairBlocks:
+		sp.Kind = "pairs"
+		sp.NBlocks = nPairBlocks
+		c.Mode = "pairs"
+		b := block - nBlocks
+		sp.Sets = append(sp.Sets, pairs[b*blockSize:sim.MinInt(len(pairs), (b+1)*blockSize)]...)
+		sp.Ops = cheapOps(format)
+		sp.FirstPairBlock = b == 0
 	case block < nBlocks:
 		sp.Kind = "singles"
 		sp.NBlocks = nBlocks
@@ -229,7 +254,7 @@ func (p *Prop) Generate(base uint64, index int, env *sim.Env) *sim.Case {
 		if env.Tier != "thorough" {
 			sp.Ops = cheapOps(format)
 		}
-	case (block-nBlocks)%4 == 3:
+	case (block-nBlocks-nPairBlocks)%4 == 3:
 		sp.Kind = "inflight"
 		c.Mode = "inflight"
 		// in-flight faults on the public reader seams: sets carry the position
@@ -388,6 +413,12 @@ func (p *Prop) Execute(c *sim.Case, env *sim.Env) *sim.Result {
 		res.Count("enum.blocks_done."+sp.Format, 1)
 		if sp.Block == 0 {
 			res.Count("enum.blocks_needed."+sp.Format, int64(sp.NBlocks))
+		}
+	}
+	if sp.Kind == "pairs" {
+		res.Count("enum.pair_blocks_done."+sp.Format, 1)
+		if sp.FirstPairBlock {
+			res.Count("enum.pair_blocks_needed."+sp.Format, int64(sp.NBlocks))
 		}
 	}
 	res.Fingerprint = fmt.Sprintf("%s/%d/%s/%d/%s", sp.Format, sp.DocSeed, sp.Kind, sp.Block, sim.Dump(sp.Sets)[:sim.MinInt(60, len(sim.Dump(sp.Sets)))])
